@@ -1,12 +1,16 @@
 #!/bin/bash
-# usage: bin_benign.sh <patch> : applies a behaviour-preserving patch to /repo, runs every check, reverts; anything but
-# "discharged" (and C03's known finding) is a false alarm
+# usage: bin_benign.sh <patch> : applies a behaviour-preserving patch to a SCRATCH WORKTREE of /repo HEAD (never to /repo itself),
+# runs every check there, removes the worktree; anything but "discharged" (and C03's known finding) is a false alarm
 P="$1"
-[ -n "$(git -C /repo status --porcelain)" ] && { echo "/repo is dirty"; exit 9; }
-git -C /repo apply "$P" || exit 9
+LANE=${VERIF_LANE:-/tmp/benign_lane}
+cleanup() { git -C /repo worktree remove --force "$LANE" 2>/dev/null; rm -rf "$LANE" "${LANE}_work"; git -C /repo worktree prune; }
+trap cleanup EXIT INT TERM
+cleanup
+git -C /repo worktree add -q --detach "$LANE" HEAD || exit 9
+git -C "$LANE" apply "$P" || exit 9
+export VERIF_REPO="$LANE" VERIF_WORK="${LANE}_work"
 for c in C01 C02 C03 C04 C05 C06 C07 C08 C09 C10 C11 C12 C13 C14 C15 C16 C17 C18 C19; do
   OUT=$(/verif/check $c 2>&1); RC=$?
   echo "BENIGN $(basename $P) $c rc=$RC $(echo "$OUT" | grep -E 'tier=' | cut -c1-160)"
   echo "$OUT" | grep -E "VIOLATION|UNCONFIRMED|INCONCLUSIVE|engine-error|Traceback" | cut -c1-260
 done
-git -C /repo checkout -- .
